@@ -141,6 +141,11 @@ def judge (j : Json) : Except String Verdict := do
   let kind := getStrD inp "kind"
   let status := getStrD obs "status"
   let note := getStrD obs "note"
+  if status == "crashed" && ((note.splitOn "fatal error:").length > 1 || (note.splitOn "panic:").length > 1) then
+    -- the process hosting the real Adaptation died while this case ran (Go `fatal error:` / panic):
+    -- its callers never got the callback's result back
+    return { agree := false, spec := false, sig := "C19:runtime-crashed",
+             why := s!"the runtime process crashed while the case ran: {note}", cover := ["crashed"], nontrivial := true }
   if kind == "worker" || status == "crashed" then
     return { agree := false, spec := true, why := s!"harness worker crashed: {note}", cover := ["crashed"] }
   if status == "error" then
